@@ -11,13 +11,19 @@ d = tempfile.mkdtemp(prefix="probe-")
 env = dict(os.environ, VERIF_REPLAYS_DIR=d, VERIF_SEED=seed)
 if envname != "-":
     env[envname] = allow
+match = None
 for kv in sys.argv[7:]:
     k, v = kv.split("=", 1)
-    env[k] = v
+    if k == "match":
+        match = v
+    else:
+        env[k] = v
 subprocess.run([os.path.join(root, "check"), pid, "quick", "--shards", "8", "--scale", scale], env=env, stdout=subprocess.DEVNULL, stderr=subprocess.DEVNULL)
 best = None
 for f in glob.glob(os.path.join(d, "*-min.json")):
     doc = json.load(open(f))
+    if match and match not in doc.get("why", ""):
+        continue
     n = len(json.dumps(doc["case"]))
     if best is None or n < best[0]:
         best = (n, doc)
